@@ -821,6 +821,36 @@ def F46():
     return out.redeem_script is None or len(out.named_pubs) != 2 or again != "parses", "after the second updater: RedeemScript %s, %d derivation(s), serialised PSBT %s" % (
         "kept" if out.redeem_script is not None else "LOST", len(out.named_pubs), again)
 
+def F47():
+    """script-path spend whose witness spells the committed leaf script `20 <key> ac` as `4c 20 <key> ac`"""
+    import contextlib
+    from buidl.ecc import PrivateKey
+    from buidl.script import Script
+    from buidl.taproot import TapLeaf, TapScript
+    from buidl.tx import Tx, TxIn, TxOut
+    from buidl.script import P2WPKHScriptPubKey
+    from buidl.witness import Witness
+    pk = PrivateKey(0xC0FFEE)
+    internal = PrivateKey(0xBEEF).point
+    leaf_script = Script([pk.point.xonly(), 0xAC])          # 20 <key> ac
+    leaf = TapLeaf(leaf_script)
+    spk = internal.p2tr_script(leaf.hash())
+    cb = leaf.control_block(internal)
+    tx_in = TxIn(bytes.fromhex("33" * 32), 0)
+    tx_in._value, tx_in._script_pubkey = 50000, spk
+    tx = Tx(2, [tx_in], [TxOut(40000, P2WPKHScriptPubKey(bytes(20)))], 0, network="testnet", segwit=True)
+    res = {}
+    for label, raw in (("committed bytes", leaf_script.raw_serialize()), ("non-minimal spelling", b"\x4c\x20" + pk.point.xonly() + b"\xac")):
+        tx_in.witness = Witness([raw, cb.serialize()])
+        sig = pk.sign_schnorr(tx.sig_hash(0, 0).to_bytes(32, "big") if isinstance(tx.sig_hash(0, 0), int) else tx.sig_hash(0, 0)).serialize()
+        tx_in.witness = Witness([sig, raw, cb.serialize()])
+        with contextlib.redirect_stdout(io.StringIO()):
+            try:
+                res[label] = tx.verify_input(0)
+            except Exception as e:
+                res[label] = type(e).__name__
+    return res.get("non-minimal spelling") is True, "verify_input: %s" % res
+
 def K1():
     from buidl.op import op_2rot
     st = [b"1", b"2", b"3", b"4", b"5", b"6"]
